@@ -8,7 +8,7 @@ ALL = [f"C{i:02d}" for i in range(1, 21)]
 
 def hook_commits():
     out = subprocess.run(["git", "-C", "/repo", "log", "--format=%H %s"], stdout=subprocess.PIPE, text=True).stdout
-    return [l.split()[0] for l in out.splitlines() if "verif feature" in l or l.split(" ", 1)[1].startswith("verif hook")]
+    return [l.split()[0] for l in out.splitlines() if "verif feature" in l or l.split(" ", 1)[1].startswith("verif hook") or l.split(" ", 1)[1].startswith("hook:")]
 
 TECH = {
     "C01": "runtime monitoring: totality under catch_unwind + hooked step count per call against the linear bound",
